@@ -240,6 +240,9 @@ func init() {
 				}
 			case "rebuild":
 				digests := []string{}
+				// the option values are built once and used for every build, as a caller may do
+				bopts := []builder.Option{builder.Optimize(rq.OptParse), builder.BasicLatinLookupTable(rq.Latin),
+					builder.SupportLeftRecursion(rq.LR)}
 				for i := 0; i < rq.Times; i++ {
 					v, err := ParseReader("", bytes.NewReader(text))
 					if err != nil {
@@ -251,8 +254,7 @@ func init() {
 						ast.Optimize(g, rq.Entry...)
 					}
 					var buf bytes.Buffer
-					err = builder.BuildParser(&buf, g, builder.Optimize(rq.OptParse), builder.BasicLatinLookupTable(rq.Latin),
-						builder.SupportLeftRecursion(rq.LR))
+					err = builder.BuildParser(&buf, g, bopts...)
 					if err != nil {
 						digests = append(digests, "error: "+err.Error())
 						continue
